@@ -89,6 +89,13 @@ impl TestRunnerAdapter {
 
                         {
                             let mut runner = thread_runner.write().unwrap();
+
+                            // The state may have changed since we looked at it (e.g. the debugger paused the machine),
+                            // so check it again now that nobody else can touch the runner.
+                            if *thread_state.lock().unwrap() != MachineRunningState::Running {
+                                continue;
+                            }
+
                             match runner.execute_instruction() {
                                 Ok(result) => {
                                     // Give rest of core a chance to do something
@@ -230,7 +237,11 @@ impl MachineAdapter for TestRunnerAdapter {
     }
 
     fn pause(&mut self) -> MosResult<()> {
-        let pc = self.runner.read().unwrap().cpu().get_program_counter();
+        // Keep the runner locked while updating the state, so the machine cannot execute another instruction
+        // between reading the program counter and stopping
+        let runner = self.runner.clone();
+        let runner = runner.read().unwrap();
+        let pc = runner.cpu().get_program_counter();
         self.update_state(MachineRunningState::Stopped(ProgramCounter::new(
             pc as usize,
         )))?;
